@@ -47,7 +47,7 @@ PROPS = {
                      "fault-free and faulted sink configurations are separate runs. evaluations = runs (calls); distinct = distinct (format-shape signature, "
                      "argument type vector, sink kind, capacity class, faulted?) tuples; non-trivial = the output contains padding or a multi-unit "
                      "character AND at least one flush/overflow/refill happened inside the call"),
-    "C20": dict(engine="simB", level="exploration", variants=["sched"], quick={"sched": 8000}, thorough={"sched": 300},
+    "C20": dict(engine="simB", level="exploration", variants=["sched", "sched0"], quick={"sched": 5000, "sched0": 4000}, thorough={"sched": 200, "sched0": 200},
                 rule="one run = 2-4 real caller threads, each executing a seeded program of 2-8 operations (const members on shared immutable strings and "
                      "buffers, arbitrary operations on thread-private objects) under a seeded scheduler that decides every interleaving at memory-access "
                      "granularity (serial / rare / medium / frequent preemption), in a fresh process so that first-use effects are concurrent; every instrumented "
@@ -384,9 +384,9 @@ def check_engine_a(prop, tier, seed):
         workers = NCPU if variant != "asan" else min(NCPU, 8)
         b = Batch(binpath, cfg["engine"], prop, seed, workers)
         if tier == "quick":
-            b.run(count=cfg["quick"][variant], first=0 if variant != "asan" else 10 ** 7)
+            b.run(count=cfg["quick"][variant], first=0 if variant not in ("asan", "sched0") else 10 ** 7)
         else:
-            b.run(seconds=cfg["thorough"][variant], first=0 if variant != "asan" else 10 ** 7)
+            b.run(seconds=cfg["thorough"][variant], first=0 if variant not in ("asan", "sched0") else 10 ** 7)
         batches.append((variant, b))
     en = None
     if prop == "C19":
